@@ -173,6 +173,7 @@ ROWS = [
     ("arcsecond", f"{PI}/648000", "radian", None, "pi", "SI"),
     ("turn", f"2*{PI}", "radian", None, "pi", "ISO 80000-3"),
     ("grade", f"{PI}/200", "radian", None, "pi", "ISO 80000-3"),
+    ("mil", f"{PI}/3200", "radian", None, "pi", "NATO angular mil: 6400 per circle (added after a sub-agent noticed pint's value)"),
     ("steradian", "1", "radian**2", "sr", "exact", "SI"),
     ("square_degree", f"({PI}/180)**2", "radian**2", None, "pi", "-"),
     # ---- frequency, speed, acceleration ---------------------------------------------
